@@ -305,30 +305,31 @@ class SymReal:
 
     __hash__ = object.__hash__
 
-    # ---- arithmetic
+    # ---- arithmetic (foreign operand types -> NotImplemented, so that e.g.
+    # Signal.__rmul__ gets its turn for `k * signal`)
     def __add__(self, o):
-        return add(self, o)
+        return add(self, o) if _num_like(o) else NotImplemented
 
     def __radd__(self, o):
-        return add(o, self)
+        return add(o, self) if _num_like(o) else NotImplemented
 
     def __sub__(self, o):
-        return sub(self, o)
+        return sub(self, o) if _num_like(o) else NotImplemented
 
     def __rsub__(self, o):
-        return sub(o, self)
+        return sub(o, self) if _num_like(o) else NotImplemented
 
     def __mul__(self, o):
-        return mul(self, o)
+        return mul(self, o) if _num_like(o) else NotImplemented
 
     def __rmul__(self, o):
-        return mul(o, self)
+        return mul(o, self) if _num_like(o) else NotImplemented
 
     def __truediv__(self, o):
-        return div(self, o)
+        return div(self, o) if _num_like(o) else NotImplemented
 
     def __rtruediv__(self, o):
-        return div(o, self)
+        return div(o, self) if _num_like(o) else NotImplemented
 
     def __neg__(self):
         return mul(-1, self)
@@ -419,6 +420,11 @@ class SymReal:
 
     def arctan(self):
         return arctan(self)
+
+
+def _num_like(o):
+    return isinstance(o, (SymReal, SymComplex, numbers.Number, np.number, np.bool_, Fr)) or (
+        isinstance(o, np.ndarray) and o.ndim == 0)
 
 
 def _mk(p, d=None):
